@@ -493,6 +493,8 @@ def run(repo: Repo, tier: str) -> Report:
                 rep.ob("R-SIBLING(accessor)", AFILE, f"AccessorTimeBase.{a}", f".{a} comes from time.dt.{a}",
                        norm_stmt(e) == f"self._obj.time.dt.{a}", norm_stmt(e), bm[a].body[-1])
 
+    from ..rules import r_stateless
+    r_stateless(rep, repo, [('Period', 'idx'), ('Period', 'yidx'), ('Period', 'ndays'), ('Period', 'label'), ('Period', 'start_date'), ('Period', 'end_date'), ('Period', 'raw')])
     rep.floor("C11 obligations", len(rep.obls), 45)
     return rep
 
